@@ -69,7 +69,7 @@ func hostileAlphabet(r int, n uint32, psize uint32, small bool) []string {
 		add(rc.Msg{Kind: rc.Cancel, Index: t.i, Begin: t.b, Length: t.l})
 		add(rc.Msg{Kind: rc.Reject, Index: t.i, Begin: t.b, Length: t.l})
 	}
-	for _, i := range []uint32{0, n - 1, n, 1<<32 - 1} {
+	for _, i := range []uint32{0, 1, n - 1, n, 1<<32 - 1} {
 		for _, b := range []uint32{0, 1, 16384, psize, 1<<32 - 16384} {
 			for _, l := range []int{0, 1, 16384, 16385, 32768} {
 				if small && (l == 1 || l == 16385 || b == 1) {
@@ -132,11 +132,13 @@ func hostileAlphabet(r int, n uint32, psize uint32, small bool) []string {
 func c05Specs() []*bfsSpec {
 	var specs []*bfsSpec
 	for caps := 0; caps < 4; caps++ {
-		pc := peerCfg{Fast: caps&1 != 0, Ext: caps&2 != 0, DontHave: 7, Pex: 9, Metadata: 8}
+		pc := peerCfg{Fast: caps&1 != 0, Ext: caps&2 != 0, DontHave: 7, Pex: 9, Metadata: 8, ReqQ: 2}
 		honest := peerCfg{Fast: true, Ext: true, DontHave: 7, Pex: 9, Metadata: 8}
-		torrentSide := []string{"tick", "want:0:1", "adv:2", "utick", "mtick"}
+		torrentSide := []string{"tick", "want:0:1", "unwant:1:1", "adv:2", "utick", "mtick"}
 		// metadata known
-		for si, setup := range [][]string{nil, {"bf:0:7", "unchoke:0", "want:2:1", "tick"}, {"interested:0", "unchokepeer:0", "req:0:0:0:16384"}} {
+		// (the last setup leaves requests both on the wire and queued unsent inside the peer)
+		for si, setup := range [][]string{nil, {"bf:0:7", "unchoke:0", "want:2:1", "tick"}, {"interested:0", "unchokepeer:0", "req:0:0:0:16384"},
+			{"bf:0:7", "unchoke:0", "want:1:1", "want:2:0", "cmd:0:2", "cmd:0:3", "cmd:0:4", "cmd:0:5"}} {
 			cfg := worldCfg{Geom: "gtail", Peers: []peerCfg{pc, honest}, Have: []int{0}, AutoDrain: true}
 			specs = append(specs, &bfsSpec{Name: fmt.Sprintf("c05-known-caps%d-s%d", caps, si), Cfg: cfg, Setup: setup,
 				Alphabet: append(hostileAlphabet(0, 3, 2*wchunk, false), torrentSide...), Depth: 2, DepthT: 3})
